@@ -6,8 +6,8 @@ Model of the directional statistics utilities
 
   directional_add(a, b)   = arg(exp(j (a.colwise() + b)))                 entry-wise
   directional_sub(a, b)   = directional_add(a, -b)
-  directional_mean(a, w)  = a.col(0)                    if a.cols() == 1   (shortcut, as coded:
-                                                                            unwrapped, weight ignored)
+  directional_mean(a, w)  = arg(exp(j a.col(0)))        if a.cols() == 1   (shortcut, as coded since
+                                                                            e5e0548: wrapped, weight ignored)
                           = arg(exp(j a) * w)           otherwise          row-wise
 
 `exp(j θ)` is the pair `(cos θ, sin θ)` and `arg (x + j y)` is `atan2 y x`; the complex numbers of
@@ -41,8 +41,8 @@ def resIm {r c : Nat} (a : Mat α r c) (w : Vec α c) (i : Fin r) : α :=
 /-- `directional_mean`, both branches as coded. -/
 def dirMean {r c : Nat} (a : Mat α r c) (w : Vec α c) : Vec α r :=
   if h : c = 1 then
-    -- "If one column only is provided, it is returned as is."
-    Vec.of (fun i => a i ⟨0, by omega⟩)
+    -- "If one column only is provided, it is the mean: it is returned wrapped to (-pi, pi]."
+    Vec.of (fun i => wrap (a i ⟨0, by omega⟩))
   else
     Vec.of (fun i => Transc.atan2 (resIm a w i) (resRe a w i))
 
